@@ -19,7 +19,25 @@ use serde::Serialize;
 use serde_json::{json, Map, Value};
 use sha2::{Digest, Sha256};
 
-pub const VERIF_ROOT: &str = "/verif";
+/// Root of the verification tree: $VERIF_ROOT, else the directory that holds
+/// MANIFEST.json above the running executable, else /verif. (Background
+/// snapshot runs thereby write into their own snapshot.)
+pub fn verif_root() -> &'static str {
+    static R: std::sync::OnceLock<String> = std::sync::OnceLock::new();
+    R.get_or_init(|| {
+        if let Ok(r) = std::env::var("VERIF_ROOT") {
+            return r;
+        }
+        if let Ok(exe) = std::env::current_exe() {
+            for a in exe.ancestors() {
+                if a.join("MANIFEST.json").exists() && a.join("properties.jsonl").exists() {
+                    return a.display().to_string();
+                }
+            }
+        }
+        "/verif".to_string()
+    })
+}
 
 #[derive(Clone, Copy, PartialEq, Eq, Debug)]
 pub enum Tier {
@@ -303,7 +321,7 @@ impl Ctx {
             });
             let bytes = serde_json::to_vec_pretty(&rec).unwrap();
             let h = hex::encode(&Sha256::digest(&bytes)[..6]);
-            let dir = PathBuf::from(VERIF_ROOT).join("replays/found");
+            let dir = PathBuf::from(verif_root()).join("replays/found");
             let _ = std::fs::create_dir_all(&dir);
             let path = dir.join(format!("{}-{}-{}.json", self.id, v.prop, h));
             let _ = std::fs::write(&path, &bytes);
@@ -374,7 +392,7 @@ impl Ctx {
             "violations": viols.len(),
         });
         if !self.strict {
-            let dir = PathBuf::from(VERIF_ROOT).join("evidence");
+            let dir = PathBuf::from(verif_root()).join("evidence");
             let _ = std::fs::create_dir_all(&dir);
             let path = dir.join(format!("{}.json", self.id));
             if let Err(e) = std::fs::write(
@@ -405,7 +423,7 @@ impl Ctx {
 }
 
 fn load_known(id: &str) -> Vec<KnownFinding> {
-    let path = PathBuf::from(VERIF_ROOT).join("known_findings.json");
+    let path = PathBuf::from(verif_root()).join("known_findings.json");
     let Ok(bytes) = std::fs::read(&path) else {
         return Vec::new();
     };
